@@ -22,8 +22,9 @@ class Deadlock(Exception):
 
 
 class Sched(object):
-    def __init__(self, prefix, opcode=False, max_steps=20000, rng=None, pswitch=0.03):
+    def __init__(self, prefix, opcode=False, max_steps=20000, rng=None, pswitch=0.01):
         self.rng = rng
+        self.stall_timeout = 30
         self.pswitch = pswitch
         self.prefix = list(prefix)
         self.opcode = opcode
@@ -136,7 +137,11 @@ class Sched(object):
         first = self._decide()
         if first is not None:
             self._switch_to(first)
-            self._wait_turn('main')
+            with self.cv:
+                ok = self.cv.wait_for(lambda: self.turn == 'main', timeout=self.stall_timeout)
+            if not ok:
+                # the scheduler itself is stuck (its threads are abandoned as daemons); never a verdict about the code
+                self.log.append({"k": "stall"})
         return self.choices
 
 
